@@ -140,7 +140,11 @@ func translateFunc(fi *funcInfo) {
 	// return type
 	var rts []string
 	for i := 0; i < sig.Results().Len(); i++ {
-		rts = append(rts, leanType(sig.Results().At(i).Type()))
+		rt := leanType(sig.Results().At(i).Type())
+		if fi.nilRes {
+			rt = "(Option " + rt + ")"
+		}
+		rts = append(rts, rt)
 	}
 	t.nres = len(rts)
 	for i, m := range fi.mutated {
@@ -155,6 +159,9 @@ func translateFunc(fi *funcInfo) {
 		t.retTy = rts[0]
 	default:
 		t.retTy = "(" + strings.Join(rts, " × ") + ")"
+	}
+	if fi.fuel {
+		t.retTy = "(" + t.retTy + " × Bool)"
 	}
 	head := "def " + fi.lean
 	for i, p := range fi.params {
@@ -172,7 +179,7 @@ func translateFunc(fi *funcInfo) {
 			}
 			return t.retTuple(nil)
 		},
-		ret: func(vals []string) string { return t.retTuple(vals) }}
+		retTerm: func(term string) string { return term }}
 	body := t.stmts(fi.decl.Body.List, k)
 	doc := fmt.Sprintf("/-- `%s` (%s). -/\n", fi.key, filepath.Base(fset.Position(fi.decl.Pos()).Filename))
 	d := &leanDef{name: fi.lean, text: doc + head + "\n" + indent(body, 1) + "\n", deps: t.deps, pos: fi.decl.Pos()}
@@ -244,6 +251,21 @@ func main() {
 					fi.mutated = make([]bool, len(fi.params))
 					fi.optParam = make([]bool, len(fi.params))
 					if dd.Body != nil {
+						fi.fuel = hasWhile(dd.Body)
+						if sig.Results().Len() == 1 {
+							if _, isPtr := types.Unalias(sig.Results().At(0).Type()).Underlying().(*types.Pointer); isPtr {
+								ast.Inspect(dd.Body, func(n ast.Node) bool {
+									if r, ok := n.(*ast.ReturnStmt); ok && len(r.Results) == 1 {
+										if id, ok := r.Results[0].(*ast.Ident); ok {
+											if _, isNil := p.TypesInfo.ObjectOf(id).(*types.Nil); isNil {
+												fi.nilRes = true
+											}
+										}
+									}
+									return true
+								})
+							}
+						}
 						nc := nilCompared(p.TypesInfo, dd.Body)
 						for i, pv := range fi.params {
 							if nc[pv] {
@@ -277,7 +299,7 @@ func main() {
 		ch := false
 		for _, k := range sortedKeys() {
 			fi := funcs[k]
-			if _, s := skip[k]; s || fi.decl.Body == nil {
+			if _, s := skip[k]; s || fi.decl.Body == nil || !wanted(fi) {
 				continue
 			}
 			if analyse(fi) {
@@ -296,7 +318,7 @@ func main() {
 			skipped = append(skipped, k+" — "+r)
 			continue
 		}
-		if fi.decl.Body == nil {
+		if fi.decl.Body == nil || !wanted(fi) {
 			continue
 		}
 		translateFunc(fi)
@@ -346,6 +368,13 @@ func main() {
 	fmt.Printf("gen_go: %d functions translated, %d skipped, %d package-level values\n", len(translated), len(skipped), len(globalDefs))
 }
 
+func wanted(fi *funcInfo) bool {
+	if o, ok := only[fi.pkgdir]; ok {
+		return o[fi.key]
+	}
+	return true
+}
+
 func sortedKeys() []string {
 	var ks []string
 	for k := range funcs {
@@ -356,7 +385,13 @@ func sortedKeys() []string {
 }
 
 func topo(ds []*leanDef) []*leanDef {
-	sort.Slice(ds, func(i, j int) bool { return ds[i].pos < ds[j].pos })
+	sort.Slice(ds, func(i, j int) bool {
+		pi, pj := fset.Position(ds[i].pos), fset.Position(ds[j].pos)
+		if pi.Filename != pj.Filename {
+			return filepath.Base(pi.Filename) < filepath.Base(pj.Filename)
+		}
+		return pi.Offset < pj.Offset
+	})
 	in := map[string]bool{}
 	for _, d := range ds {
 		in[d.name] = true
